@@ -102,10 +102,12 @@ def cmd_selftest(args):
                 return [f'{sid}: patch does not apply: {r.stdout[-200:]}{r.stderr[-200:]}'], 1
             for p in props:
                 env = dict(os.environ, VF_REPO=tmp, VF_SELFTEST='1')
+                import time
+                t0 = time.time()
                 r = subprocess.run([sys.executable, '-m', 'pyvc.cli', 'check', p, '--no-evidence'], cwd=VERIF, env=env,
                                    capture_output=True, text=True)
                 verdict = 'detected' if r.returncode == 1 and 'VIOLATION' in r.stdout else f'NOT DETECTED (exit {r.returncode})'
-                lines.append(f'seed {sid} against {p}: {verdict}')
+                lines.append(f'seed {sid} against {p}: {verdict} ({time.time() - t0:.0f}s)')
                 bad += verdict != 'detected'
         finally:
             shutil.rmtree(tmp, ignore_errors=True)
